@@ -306,9 +306,23 @@ def checkCalls (cfg : WireCfg) (fs : List Frame) (o : WireObs) : Verdict :=
           | some (_, _, d) => if d == desc then none else some "call-reached-a-shadowed-registration"
           | none => some "call-reached-unregistered-interface"
 
+/-- when the implementation reports that it consumed its input to the end of the stream in varlink mode
+    (no error, no upgrade), every complete request for a registered scripted interface must have reached
+    it: the calls recorded are exactly those requests, in order -/
+def checkAllReached (cfg : WireCfg) (fs : List Frame) (o : WireObs) : Verdict :=
+  if o.status != .eof || fs.any (fun f => match f with | .bad => true | .req _ => false) then none else
+  let reqs := fs.filterMap fun f => match f with | .req r => some r | .bad => none
+  let expected := reqs.filter fun r => match ifacePart r.method with
+    | none => false
+    | some i => i != svcName && match lastRegistered cfg i with   -- the built-in interface cannot be shadowed
+      | some (kind, _, _) => kind == "script"
+      | none => false
+  let got := o.calls.map fun c => c.2.2
+  if got == expected then none else some "call-did-not-reach-its-interface"
+
 def P_C03 (cfg : WireCfg) (fs : List Frame) (o : WireObs) : Verdict :=
   if o.panicked then some "panic" else
-  match checkCalls cfg fs o with
+  match (checkCalls cfg fs o).orElse (fun _ => checkAllReached cfg fs o) with
   | some r => some r
   | none =>
     -- reply clauses need attribution: only when P_C01's matching succeeds on an in-scope case
